@@ -22,9 +22,9 @@ def classify(req, obs, rule):
 
 PROP = {
     "id": "C05",
-    "lean_targets": ["WmModel.Props.C04Exit", "WmModel.Props.C05Reg", "WmModel.Props.C05"],
+    "lean_targets": ["WmModel.Props.C05Live", "WmModel.Props.C04Exit", "WmModel.Props.C05Reg", "WmModel.Props.C05"],
     "audit_module": "Audit.C05",
-    "theorems": ["Wm.GcSub.acked_exit_means_delivered_and_acked", "Wm.GcSub.unacked_exit_means_closing", "Wm.GcSub.sender_exits_once", "Wm.GcReg.blocking_order", "Wm.GcReg.blocking_publish_waits", "Wm.GcReg.blocking_send_then_wait", "Wm.GcReg.blocking_deadlock_witness", "Wm.GcReg.blocking_without_pending_writer_returns", "Wm.GcReg.writer_unique", 
+    "theorems": ["Wm.GcReg.nonblocking_no_deadlock", "Wm.GcReg.blocking_deadlock_needs_nested_publish", "Wm.GcReg.closing_no_deadlock", "Wm.GcReg.d11_has_nested_publish", "Wm.GcSub.acked_exit_means_delivered_and_acked", "Wm.GcSub.unacked_exit_means_closing", "Wm.GcSub.sender_exits_once", "Wm.GcReg.blocking_order", "Wm.GcReg.blocking_publish_waits", "Wm.GcReg.blocking_send_then_wait", "Wm.GcReg.blocking_deadlock_witness", "Wm.GcReg.blocking_without_pending_writer_returns", "Wm.GcReg.writer_unique", 
         "Wm.GcSub.one_unsettled_inv", "Wm.GcSub.unsettled_is_owned", "Wm.GcSub.no_send_while_unsettled",
         "Wm.GcSub.never_panics", "Wm.GcSub.close_flags_consistent", "Wm.GcSub.holder_can_leave_when_closing",
     ],
@@ -57,10 +57,15 @@ PROP = {
     ],
     "level_text": "Proof (Lean 4) that in every reachable state of the subscription model - any buffer size, any number of senders, nacks, cancel "
                   "and close at any point, every interleaving - at most one delivered copy is unsettled and no further copy can be sent while one is; "
-                  "the model is tied to the code by structural facts and by trace inclusion of recorded executions; the blocking-publish clauses "
-                  "are checked by monitors on those executions.",
-    "level_note": "Partial: theorems cover the one-unsettled clause and the subscription's close protocol; blocking-publish clauses are "
-                  "monitor-checked on sampled schedules (forced by hooks/yields), liveness has the recorded finding D11.",
+                  "on the registry model M_reg (RWMutex with writer announcement, topic mutexes, closedLock; any number of Publish/Subscribe/Close calls): "
+                  "a blocking Publish leaves its wait only when every sender it started has finished or the Pub/Sub is closing (blocking_publish_waits), a sender "
+                  "finishes 'acked' only after an acked delivery (acked_exit_means_delivered_and_acked), the next message of a batch is sent only afterwards "
+                  "(blocking_order); deadlock freedom: non-blocking mode never deadlocks, a blocking-mode deadlock needs a consumer that publishes before it acks "
+                  "(blocking_deadlock_needs_nested_publish; D11 is exactly that state), and after Close has signalled nothing is stuck. "
+                  "The models are tied to the code by structural facts and by trace inclusion of recorded executions; monitors re-check the clauses on those executions.",
+    "level_note": "Partial: M_sub and M_reg are composed on paper (a sender of M_reg is a `spawn` of M_sub; `senderDone` is that sender's exit); "
+                  "'it does return once they have, also when subscribers publish from their receive loop' is false of the code in one configuration - the recorded "
+                  "finding D11 (theorem blocking_deadlock_witness) - and proved for all others in the model.",
     "technique": "Lean 4 invariant proof over an LTS model of the subscription + trace-inclusion conformance and monitors on hook-instrumented executions",
     "explanation": "one_unsettled_inv is an inductive invariant over all 16 actions of M_sub; conformance replays every recorded per-subscription "
                    "stream through the model.",
